@@ -318,7 +318,8 @@ def run_threads(ctx, lines, ns):
         if "ThreadSanitizer: data race" in err or "ThreadSanitizer: lock-order" in err:
             site = "race"
             m = re.search(r"#0 (\S+) (\S+)", err)
-            ctx.pfails.append((site, "ThreadSanitizer report with %d threads: %s" % (n, err[:1500]), "threads", {"n": n, "lines": lines[:2000]}, {}))
+            k = err.find("WARNING: ThreadSanitizer")
+            ctx.pfails.append((site, "ThreadSanitizer report with %d threads: %s" % (n, err[max(k, 0):max(k, 0) + 3000]), "threads", {"n": n, "lines": lines[:2000]}, {}))
             return
         if len(out) != len(seq):
             ctx.pfails.append(("threads:crash", "threaded run with %d threads died: %s" % (n, err[-600:]), "threads", {"n": n, "lines": lines[:2000]}, {}))
